@@ -35,7 +35,7 @@ def build(ctx):
     root = os.path.join(ctx.scratch, "w")
     os.mkdir(root)
     sizes = [0, 1, 9, 10, 11, 99, 100, 999, 1000, 1001, 1023, 1024, 1025, 2047, 2048, 2049, 1000000, 1048575, 1048576, 1048577]
-    names = ["a", "B", "a.txt", "A.TXT", "size", "bin", "name", "Name", "NAME", "Size", "x.Extension", "Mode", "Directory", "x.bin", "10", "true", ".hid", ".hid.rc", "no_ext.", "two.part.tar.gz", "sp ace.txt", "é.txt", "q'1"]
+    names = ["a", "B", "a.txt", "A.TXT", "size", "bin", "name", "Name", "NAME", "Size", "x.Extension", "Mode", "Directory", "x.bin", "10", "true", ".hid", ".hid.rc", "no_ext.", "two.part.tar.gz", "sp ace.txt", "é.txt", "q'1", "li\nne.txt", "nl\n"]
     nodes = []
     for i, nm in enumerate(names):
         n = {"name": nm, "kind": "file", "size": sizes[i % len(sizes)], "perm": rng.choice([0o644, 0o755, 0o600, 0o4755, 0o2711, 0o666, 0o000, 0o444])}
@@ -126,6 +126,17 @@ def attr(n, rel, col):
     raise KeyError(col)
 
 
+def wild_match(p, s, star, one):
+    """Textbook wildcard matching: `star` = any run of characters (line breaks included), `one` = exactly one character."""
+    if not p:
+        return not s
+    if p[0] == star:
+        return any(wild_match(p[1:], s[k:], star, one) for k in range(len(s) + 1))
+    if not s:
+        return False
+    return (p[0] == one or p[0] == s[0]) and wild_match(p[1:], s[1:], star, one)
+
+
 def cmp(opk, x, y):
     return {"eq": x == y, "eeq": x == y, "ne": x != y, "ene": x != y, "gt": x > y, "ge": x >= y, "lt": x < y, "le": x <= y}[opk]
 
@@ -149,7 +160,7 @@ def run(ctx):
         atoms.append(dict(kind="str", col="mode", opk="ne", text="mode != %s" % qlib.quote(v), lit=v))
     natoms += len(atoms)
     while len(atoms) < natoms:
-        kind = rng.choice(["int", "int", "int", "str", "bool", "bool", "between", "colcol", "unit", "date"])
+        kind = rng.choice(["int", "int", "int", "str", "bool", "bool", "between", "colcol", "unit", "date", "pat"])
         opk = rng.choice(list(OPS))
         op = rng.choice(OPS[opk])
         if kind == "int":
@@ -180,6 +191,26 @@ def run(ctx):
             if "*" in v or "?" in v or qlib.quote(v) is None:
                 continue
             atoms.append(dict(kind="str", col=col, opk=opk, text="%s %s %s" % (col, op, qlib.quote(v)), lit=v))
+        elif kind == "pat":
+            # text columns "by pattern": LIKE (% _) and glob (* ?) patterns derived from a value of the column - a run of characters
+            # (possibly containing a line break) replaced by the multi-character wildcard, one character by the single one
+            col = rng.choice(["name", "name", "ext", "path"])
+            vals = sorted(v_ for v_ in {attr(n, p, col) for p, n in entries} - {None} if v_ and all(ord(c_) < 128 for c_ in v_) and not any(c_ in v_ for c_ in "*?%_'\\"))
+            if not vals:
+                continue
+            v = rng.choice(vals)
+            fam = rng.choice(["like", "glob"])
+            star, one = ("%", "_") if fam == "like" else ("*", "?")
+            i_ = rng.randrange(len(v))
+            j_ = rng.randint(i_, len(v))
+            pat_ = v[:i_] + star + v[j_:] if rng.random() < 0.7 else v[:i_] + one + v[i_ + 1:]
+            if rng.random() < 0.3:
+                pat_ = pat_.swapcase()
+            if qlib.quote(pat_) is None or "\n" in pat_:
+                continue
+            neg = rng.random() < 0.4
+            optext = {("like", False): "like", ("like", True): rng.choice(["notlike", "not like"]), ("glob", False): "=", ("glob", True): "!="}[(fam, neg)]
+            atoms.append(dict(kind="pat", col=col, opk="pat", text="%s %s %s" % (col, optext, qlib.quote(pat_)), lit=(pat_, star, one, neg)))
         elif kind == "bool":
             if opk not in ("eq", "ne", "eeq", "ene"):
                 continue
@@ -247,6 +278,8 @@ def run(ctx):
                 t = {"eq": lo <= x <= hi, "eeq": x == lo, "ne": not (lo <= x <= hi), "ene": x != lo, "gt": x > hi, "ge": x >= lo, "lt": x < lo, "le": x <= hi}[a["opk"]]
             elif a["kind"] in ("int", "str", "bool"):
                 t = cmp(a["opk"], x, a["lit"])
+            elif a["kind"] == "pat":
+                t = wild_match(a["lit"][0].lower(), x.lower(), a["lit"][1], a["lit"][2]) != a["lit"][3]
             elif a["kind"] == "between":
                 lo, hi, neg = a["lit"]
                 t = (lo <= x <= hi) != neg
